@@ -257,6 +257,40 @@ func systematicSelections(rng *rand.Rand, maxLen, sample int) []refScenario {
 	return out
 }
 
+// builtinBoundaryScenarios: every predefined group (--branches ... --stash as options, @pulls / @changes as
+// group references) against reference names that sit exactly on, just below and just beside the
+// boundary of its pattern, alone and after an include / exclude that the group option must override.
+func builtinBoundaryScenarios() []refScenario {
+	common := []string{"refs/heads/a", "refs/headsx/a", "refs/tags/t", "refs/tagsx/t", "refs/remotes/o/m", "refs/remotesx/o",
+		"refs/notes/n", "refs/notesx/n", "refs/stashx", "refs/pull/1/head", "refs/pull/1/headx", "refs/pull/x/head", "refs/pull/22/merge",
+		"refs/pullx/1/head", "refs/changes/12/3/4", "refs/changes/1/3/4", "refs/changes/13/3/4/5", "refs/changes/14/3/4x", "refs/changesx/12/3/4"}
+	refSets := [][]string{append([]string{"refs/stash/backup", "refs/stash/b/c"}, common...), append([]string{"refs/stash"}, common...)}
+	var seqs [][]refOpt
+	for _, b := range []string{"branches", "tags", "remotes", "notes", "stash"} {
+		for _, pol := range []string{"include", "exclude"} {
+			o := refOpt{Pol: pol, Kind: "builtin", Pat: b}
+			seqs = append(seqs, []refOpt{o},
+				[]refOpt{{Pol: "include", Kind: "prefix", Pat: "refs"}, o},
+				[]refOpt{{Pol: "exclude", Kind: "prefix", Pat: "refs"}, o},
+				[]refOpt{{Pol: "include", Kind: "builtin", Pat: "branches"}, o})
+		}
+	}
+	for _, g := range []string{"pulls", "changes", "stash", "notes", "branches"} {
+		for _, pol := range []string{"include", "exclude"} {
+			o := refOpt{Pol: pol, Kind: "group", Pat: g}
+			seqs = append(seqs, []refOpt{o}, []refOpt{{Pol: "include", Kind: "prefix", Pat: "refs"}, o},
+				[]refOpt{{Pol: "exclude", Kind: "prefix", Pat: "refs"}, o})
+		}
+	}
+	var out []refScenario
+	for i, sq := range seqs {
+		for j, rs := range refSets {
+			out = append(out, refScenario{ID: fmt.Sprintf("bb%d-%d", i+1, j+1), Class: "builtin-boundary", Refs: conflictFree(rs), Opts: sq})
+		}
+	}
+	return out
+}
+
 // forestScenarios: refgroup forests over p, p.x, p.y, p.x.z where every group has no rules, an include,
 // or an include plus an exclude, so that rule-less parents with several matching subgroups, nested
 // rule-less groups and Other buckets all occur; optionally selected through @group options.
@@ -387,9 +421,11 @@ func checkC06(c *Ctx) {
 	}
 	if quick(c) {
 		scs = append(scs, systematicSelections(rng, 3, 250)...)
+		scs = append(scs, builtinBoundaryScenarios()...)
 		scs = append(scs, forestScenarios(rng, 15)...)
 	} else {
 		scs = append(scs, systematicSelections(rng, 3, 100000)...)
+		scs = append(scs, builtinBoundaryScenarios()...)
 		scs = append(scs, systematicSelections(rng, 4, 3000)...)
 		scs = append(scs, forestScenarios(rng, 300)...)
 	}
@@ -416,8 +452,10 @@ func checkC07(c *Ctx) {
 	}
 	if quick(c) {
 		scs = append(scs, forestScenarios(rng, 40)...)
+		scs = append(scs, builtinBoundaryScenarios()...)
 	} else {
 		scs = append(scs, forestScenarios(rng, 1000)...)
+		scs = append(scs, builtinBoundaryScenarios()...)
 	}
 	// however deeply nested: chains of 1..24 groups
 	for d := 1; d <= 24; d++ {
